@@ -1,11 +1,11 @@
 #!/bin/sh
 # Runs every kept seeded change against the checks of the claimed properties that could see it and writes a table.
 cd "$(dirname "$0")/.."
-OUT=seeded/RESULTS.md
+OUT=${SEEDED_OUT:-seeded/RESULTS.md}
 echo "| change | breaks | checks run | outcome |" > $OUT.tmp
 echo "|---|---|---|---|" >> $OUT.tmp
 claimed=$(python3 -c "import json;print(' '.join(c['property_id'] for c in json.load(open('MANIFEST.json'))['checks']))")
-for d in seeded/C*_*; do
+for d in ${SEEDED_DIRS:-seeded/C*_*}; do
   m=$(basename $d); p=${m%_*}
   # the property itself (if claimed) plus the properties whose functions the patch touches
   cands="$p"
